@@ -378,7 +378,7 @@ Definition in_domain_for (k : setk) (v : pyval) : bool :=
   in_domain v && match k, v with SetMeta, VNone => false | _, _ => true end.
 (* a time-zone offset with a seconds part has no xsd:dateTime form: no lexical claim for it *)
 Definition lexical_claimed (v : pyval) : bool :=
-  match v with VDateTime d => match tz d with None => true | Some z => (z mod 60 =? 0)%Z end | _ => true end.
+  match v with VDateTime d => match tz d with None => true | Some z => (z mod 60000000 =? 0)%Z end | _ => true end.
 
 (* lexical space of what was written, by value type *)
 Definition decimal_lexical (s : str) : bool := match dec_of_text s with Some _ => true | None => false end.
@@ -395,3 +395,52 @@ Definition elem_lexical (meta : bool) (e : elem) : bool :=
     else if str_eqb t t_string then match payload (a_string e) with Some _ => true | None => false end
     else false
   end.
+
+(* ------------------------------------------------------------------ set_value_and_type with its arguments; typed reads; repeated runs *)
+(* the ODF type Python's type gives when none is asked for *)
+Definition default_type (v : pyval) : option str :=
+  match v with
+  | VNone | VOther => None
+  | VBool _ => Some t_boolean
+  | VInt _ | VFloat _ | VDec _ => Some t_float
+  | VDate _ _ _ | VDateTime _ => Some t_date
+  | VStr _ => Some t_string
+  | VDur _ => Some t_time
+  end.
+(* the text written for the value, whatever its type *)
+Definition payload_of (v : pyval) : result str :=
+  match v with
+  | VBool _ => Ok (py_bool_encode v)
+  | VInt _ | VFloat _ | VDec _ => Ok (py_str_num v)
+  | VDateTime _ => Ok (py_datetime_encode v)
+  | VDate _ _ _ => Ok (py_date_encode v)
+  | VStr s => if xml_str s then Ok s else Err
+  | VDur _ => Ok (py_dur_encode v)
+  | VNone | VOther => Err
+  end.
+(* ElementTyped.set_value_and_type(value, value_type=vt, currency=cur) followed by Cell.set_value's formula=:
+   the attribute that receives the payload is chosen by the VALUE TYPE (given, or the default of the Python type), not by the Python type *)
+Definition set_et_full (vt cur formula : option str) (v : pyval) : result elem :=
+  let fo := match formula with Some f => [(n_formula, f)] | None => [] end in
+  match v with
+  | VNone => Ok (mkelem None None None None None None None None None None fo)
+  | _ =>
+    match payload_of v, (match vt with Some t => Some t | None => default_type v end) with
+    | Ok s, Some t =>
+      let is t' := str_eqb t t' in
+      let num := is t_float || is t_percentage in
+      Ok (mkelem (Some t) (if is t_boolean then Some s else None) (if num || is t_currency then Some s else None)
+                 (if is t_date then Some s else None) (if is t_string then Some s else None) (if is t_time then Some s else None) None
+                 (if is t_currency then cur else None) (Some t) (if num then Some s else None) fo)
+    | _, _ => Err
+    end
+  end.
+(* _get_typed_value(...) as a pair: value and reported type *)
+Definition get_et_typed (e : elem) : result (pyval * option str) :=
+  match get_et e with Ok v => Ok (v, vtype e) | Err => Err end.
+
+(* a row (or a column of a table) seen through its repeated runs = the list of its logical cells.  Writing at position i changes
+   that cell only; positions beyond the end are filled with empty cells first. *)
+Fixpoint repeat_elem (n : nat) : list elem := match n with O => [] | S k => empty_elem :: repeat_elem k end.
+Definition grid_set (i : nat) (e : elem) (l : list elem) : list elem :=
+  firstn i (l ++ repeat_elem (i - length l)) ++ e :: skipn (S i) l.
